@@ -710,6 +710,7 @@ def check_C16(F, tier, t0):
     guarded(R, 'X8', engine_x.rule_X8, F, R, 'max_clique_gen')
     guarded(R, 'X8 flush', engine_x.rule_X8_flush, F, R, 'max_clique_gen')
     guarded(R, 'X8 writer choice', engine_x.rule_X8_writer_choice, F, R, 'max_clique_gen')
+    guarded(R, 'X8 reader choice', engine_x.rule_X8_reader_choice, F, R, 'max_clique_gen')
     guarded(R, 'no early return', engine_x.rule_no_early_return, F, R, 'max_clique_gen')
     guarded(R, 'L remarks', engine_l.rule_comment_holes, F, R, 'max_clique_gen')
     front_end(R, F)       # the emitted text means what the language's tokenizer and operator tables say it means
@@ -783,6 +784,7 @@ def check_C17(F, tier, t0):
     guarded(R, 'X8', engine_x.rule_X8, F, R, 'sudoku_gen')
     guarded(R, 'X8 flush', engine_x.rule_X8_flush, F, R, 'sudoku_gen')
     guarded(R, 'X8 writer choice', engine_x.rule_X8_writer_choice, F, R, 'sudoku_gen')
+    guarded(R, 'X8 reader choice', engine_x.rule_X8_reader_choice, F, R, 'sudoku_gen')
     guarded(R, 'no early return', engine_x.rule_no_early_return, F, R, 'sudoku_gen')
     guarded(R, 'L remarks', engine_l.rule_comment_holes, F, R, 'sudoku_gen')
     front_end(R, F)       # the emitted text means what the language's tokenizer and operator tables say it means
